@@ -33,7 +33,7 @@ var Kinds = []string{
 	"nni", "nni_undo", "nni_double", "rename", "rename_auto", "rename_regexp", "shuffle_tips", "clone", "subtree",
 	"reinit", "clear_lengths", "clear_supports", "comments_set", "comments_clear", "comments_add",
 	"scale_lengths", "round_supports", "resolve_named", "graft_tip_on_edge", "reroot_first", "edge_comments_set",
-	"rename_swap", "setname_swap", "nni_hold", "nni_release", "setname_fresh",
+	"rename_swap", "setname_swap", "nni_hold", "nni_release", "setname_fresh", "scale_supports",
 }
 
 // keepsHeld: operations that leave the nodes and the adjacency of the tree as they are (they
@@ -41,7 +41,7 @@ var Kinds = []string{
 // them can still be undone after them.
 var keepsHeld = map[string]bool{"rotate": true, "sort": true, "rotate_node": true, "comments_set": true, "comments_clear": true, "comments_add": true,
 	"edge_comments_set": true, "scale_lengths": true, "round_supports": true, "clear_supports": true, "clear_lengths": true, "reinit": true,
-	"nni_release": true, "rename": true, "rename_swap": true, "setname_swap": true, "shuffle_tips": true, "setname_fresh": true}
+	"nni_release": true, "scale_supports": true, "rename": true, "rename_swap": true, "setname_swap": true, "shuffle_tips": true, "setname_fresh": true}
 
 // GenOp draws one operation. Arguments are drawn generously; the interpreter reduces the
 // selectors modulo what exists.
@@ -76,7 +76,7 @@ func GenOp(t *rapid.T, kinds []string) Op {
 	case "collapse_depth":
 		op.Sel = []int{rapid.IntRange(0, 4).Draw(t, "dmin"), rapid.IntRange(0, 6).Draw(t, "dmax")}
 		flags(2)
-	case "resolve", "rotate", "shuffle_tips":
+	case "resolve", "rotate", "shuffle_tips", "scale_supports":
 		op.Seed = rapid.Int64Range(0, 1<<40).Draw(t, "seed")
 	case "graft":
 		sel(1)
@@ -569,6 +569,13 @@ func Apply(s *State, op Op) (int, error) {
 		t.ScaleLengths(2, true, true)
 	case "round_supports":
 		t.RoundSupports(1)
+	case "scale_supports":
+		// percentages to fractions or back (a power of two close to it, so that values stay exact)
+		f := 0.0078125
+		if op.Seed%2 == 1 {
+			f = 128
+		}
+		t.ScaleSupports(f)
 	default:
 		return Skipped, fmt.Errorf("unknown op %q", op.Kind)
 	}
